@@ -29,6 +29,7 @@ uint64_t g_span_size0; uint32_t g_fill_calls; uint64_t g_fill_off, g_fill_size; 
 #define CONTRACT_VirtMem_protect_jit_memory __CPROVER_assigns() __CPROVER_ensures(1)
 #define CONTRACT_VirtMem_flush_instruction_cache __CPROVER_assigns() __CPROVER_ensures(1)
 
+#ifdef HAVE_STRUCT_JitAllocator_Span
 static inline _Bool c_shrink_state(const struct JitAllocatorPrivateImpl* impl, const struct JitAllocator_Span* span) {
   const struct JitAllocatorBlock* b = BLK(span);
   const struct JitAllocatorPool* p = b->_pool;
@@ -82,4 +83,5 @@ static inline int c_shrink_post(const struct JitAllocatorPrivateImpl* impl, cons
                     g_fill_calls, g_fill_off, g_fill_size, g_fill_pat, g_fill_in_rw) \
   __CPROVER_ensures(c_wf_code(BLK(span)) == 0) \
   __CPROVER_ensures(c_shrink_post(impl, span, new_size, __CPROVER_return_value) == 0)
+#endif
 #endif
